@@ -37,6 +37,18 @@ Xf(a) == [k |-> "x", amt |-> a]
 Opd == [k |-> "u", amt |-> Z]
 CA(script, end, cc, inputs, self, t, gas) == Case("A", script, end, cc, 0, 0, S10, PkgI(0, 100000), 0, inputs, self, t, gas)
 
+\* C08 at the level of the invocation: transfers and checkpoints followed by a regular or an exceptional end
+XfOp(to, amt) == [op |-> "xfer", to |-> U(to), amt |-> U(amt), l |-> Z]
+Ck == [op |-> "ckpt"]
+TokenCases ==
+  <<CA(<<XfOp(70000, 100), XfOp(6 + 69994, 200)>>, "trap", "ok", <<>>, 5, LE(100, 4), U(100000)),
+    CA(<<XfOp(70000, 100), Ck, XfOp(70000, 200)>>, "trap", "ok", <<Xf(U(77))>>, 5, LE(100, 4), U(100000)),
+    CA(<<XfOp(70000, 100), Ck, XfOp(70000, 200)>>, "halt", "ok", <<Xf(U(77))>>, 5, LE(100, 4), U(100000)),
+    CA(<<XfOp(70000, 100), Ck, XfOp(70000, 200), Ck, XfOp(70000, 300)>>, "spin", "ok", <<>>, 5, LE(100, 4), U(5000)),
+    CA(<<Ck, XfOp(70000, 100)>>, "trap", "ok", <<>>, 5, LE(100, 4), U(100000)),
+    CA(<<XfOp(70000, 100), Info>>, "halt", "ok", <<Xf(U(77)), Opd>>, 5, LE(100, 4), U(100000)),
+    CA(<<XfOp(70000, 300), XfOp(70000, 300), XfOp(70000, 300)>>, "spin", "ok", <<>>, 5, LE(100, 4), U(3000)),
+    CA(<<XfOp(70000, 1), Ck, Info, XfOp(70000, 2)>>, "halt0", "ok", <<>>, 5, LE(100, 4), U(100000))>>
 AllSel == [q \in 1..18 |-> Fs(q - 1, 0, 0)]
 Indexed == <<Fs(12, 0, 0), Fs(12, 1, 0), Fs(12, 2, 0), Fs(12, 3, 0), F(U(12), Hi32, Z, Z, 24), Fs(13, 2, 0), F(U(13), U(2), Z, U(100), 24), F(U(13), U(2), Z, UMax, 8),
              Fs(3, 0, 0), Fs(3, 0, 1), Fs(3, 0, 2), Fs(3, 1, 0), Fs(3, 2, 0), Fs(3, 3, 0), Fs(4, 0, 0), Fs(4, 1, 0), Fs(4, 2, 0),
@@ -83,7 +95,7 @@ Fixed ==
      CA(<<Info>> \o Unknowns("A"), "halt", "ok", <<Xf(U(1000))>>, 5, LE(100, 4), U(100000)),
      CA(<<Info>>, "trap", "ok", <<Xf(U(77))>>, 5, LE(100, 4), U(100000)), CA(<<>>, "spin", "ok", <<Xf(U(77))>>, 5, LE(100, 4), U(5000)),
      CA(<<>>, "echo", "nopre", <<Xf(U(77)), Xf(U(5))>>, 5, LE(100, 4), U(100000)), CA(<<>>, "badblob", "ok", <<Xf(U(77))>>, 5, LE(100, 4), U(100000)),
-     CA(<<Info>>, "halt", "ok", <<>>, 5, LE(100, 4), U(46)), CA(<<Info>>, "halt", "ok", <<>>, 5, LE(100, 4), U(45)) >>
+     CA(<<Info>>, "halt", "ok", <<>>, 5, LE(100, 4), U(46)), CA(<<Info>>, "halt", "ok", <<>>, 5, LE(100, 4), U(45)) >> \o TokenCases
 
 \* seeded scripts: a few ops of every kind the table of the invocation offers
 RandOp(kind, v) ==
